@@ -29,9 +29,10 @@ Consume == /\ l <= Len(Steps) /\ MARun
 (* the machine's final state against how the call ended *)
 EndOk == LET res == Recs[k].res IN
          IF res = "ok" THEN mst = "ok"
+         \* (a trace that stops while the machine is still running ended inside a VALUE - a nested mapping, an ignored node -
+         \* whose own errors are not this machine's; nothing is required of the error class then)
          ELSE /\ mst # "ok"
               /\ (mst = "dup" => res = "DuplicateKey")
-              /\ (mst = "run" /\ Label[2] = "merge-error") => res = "MergeValue"
 LoadNext == /\ k' = k + 1 /\ l' = 1
             /\ IF k + 1 <= Len(Recs) THEN doc' = Recs[k + 1].doc /\ pol' = Recs[k + 1].policy ELSE doc' = <<>> /\ pol' = "Error"
             /\ mpos' = 2 /\ seen' = {} /\ mstack' = <<>> /\ pending' = <<>> /\ flushing' = FALSE /\ yields' = <<>> /\ mst' = "run"
